@@ -563,6 +563,45 @@ func (g *gen) next() Event {
 	}
 }
 
+// compositionSeed creates a master with minions that share paths and a VirtualServer with routes that
+// reference VirtualServerRoutes by bare name and by namespace/name (sometimes the same route twice),
+// so that the random events that follow act on composed resources.
+func (g *gen) compositionSeed() []Event {
+	r := g.r
+	var out []Event
+	put := func(s Spec) {
+		s.UID, s.TS, s.Gen = g.newUID(), vh.Pick(r, stamps), 1
+		g.live[s.Kind+"|"+s.NS+"/"+s.Name] = s
+		out = append(out, Event{Op: "upsert", Spec: s, Note: "seed"})
+	}
+	nginx := sp("nginx")
+	if r.Chance(2, 3) {
+		h := vh.Pick(r, hosts[:3])
+		put(Spec{Kind: "ing", NS: "ns1", Name: "a", ClassAnn: nginx, IngKind: "master", Hosts: []string{h}})
+		put(Spec{Kind: "ing", NS: "ns1", Name: "b", ClassAnn: nginx, IngKind: "minion", Hosts: []string{h}, Paths: []string{"/a", vh.Pick(r, paths)}})
+		put(Spec{Kind: "ing", NS: "a-b", Name: "c", ClassAnn: nginx, IngKind: "minion", Hosts: []string{h}, Paths: []string{vh.Pick(r, paths), "/c"}})
+		if r.Bool() {
+			put(Spec{Kind: "ing", NS: "a-b", Name: "a", ClassAnn: nginx, IngKind: "minion", Hosts: []string{vh.Pick(r, hosts[:3])}, Paths: []string{"/a"}})
+		}
+	}
+	if r.Chance(2, 3) {
+		h := vh.Pick(r, hosts[1:4])
+		routes := [][2]string{{"/a", "b"}, {vh.Pick(r, []string{"/b", "/a/b", "=/a", "~ ^/a"}), "a-b/c"}}
+		if r.Chance(1, 3) {
+			routes = append(routes, [2]string{"/a/b", "b"}) // the same route referenced twice
+		}
+		put(Spec{Kind: "vs", NS: "ns1", Name: "a", ClassField: nginx, Host: h, Routes: routes})
+		put(Spec{Kind: "vsr", NS: "ns1", Name: "b", ClassField: nginx, Host: h, Subpaths: []string{vh.Pick(r, []string{"/a/x", "/a/b/c", "/a"})}})
+		put(Spec{Kind: "vsr", NS: "a-b", Name: "c", ClassField: nginx, Host: vh.Pick(r, []string{h, h, hosts[0]}), Subpaths: []string{routes[1][0]}})
+	}
+	// random order of the seed events: the composition must not depend on it
+	for i := len(out) - 1; i > 0; i-- {
+		j := r.Intn(i + 1)
+		out[i], out[j] = out[j], out[i]
+	}
+	return out
+}
+
 func keyOf(e Event) string {
 	if e.Spec.Kind == "gc" {
 		return "gc"
@@ -635,6 +674,9 @@ func genCase(r *vh.Rng, id int, tier string) Case {
 		n = 25 + r.Intn(16)
 	}
 	var evs []Event
+	if r.Chance(2, 5) {
+		evs = append(evs, g.compositionSeed()...)
+	}
 	for i := 0; i < n; i++ {
 		evs = append(evs, g.next())
 	}
@@ -647,8 +689,28 @@ func genCase(r *vh.Rng, id int, tier string) Case {
 	return c
 }
 
+// erased is the history with every event on an object whose class designates another controller
+// replaced by the deletion of that object (C16: the two must be indistinguishable)
+func erased(evs []Event) []Event {
+	out := make([]Event, len(evs))
+	for i, e := range evs {
+		cls, has := e.M["cls"].(bool)
+		if e.Op == "upsert" && has && !cls {
+			out[i] = Event{Op: "delete", Spec: Spec{Kind: e.Spec.Kind, NS: e.Spec.NS, Name: e.Spec.Name}, Note: "erased-foreign-class"}
+		} else {
+			e.M = nil
+			out[i] = e
+		}
+	}
+	return out
+}
+
 func runCase(c *Case) {
 	anns := map[string]int{}
+	// drop an "erased" history of a replayed case: it is recomputed
+	if n := len(c.Histories); n > 0 && c.Histories[n-1].Label == "erased" {
+		c.Histories = c.Histories[:n-1]
+	}
 	for i := range c.Histories {
 		h := &c.Histories[i]
 		h.Steps, h.Final = nil, nil
@@ -658,6 +720,13 @@ func runCase(c *Case) {
 			return
 		}
 	}
+	er := History{Label: "erased", Events: erased(c.Histories[0].Events)}
+	a := k8s.VerifNewArb("nginx", c.TLS, c.CertMgr, anns)
+	if err := runHistory(a, &er, true); err != nil {
+		c.Error = fmt.Sprintf("history erased: %v", err)
+		return
+	}
+	c.Histories = append(c.Histories, er)
 }
 
 func main() {
